@@ -4,12 +4,12 @@ CONSTANTS
   PkgOf <- MCPkgOf
   Defs <- MCDefs
   CoreOf <- MCCoreOf
-  ShareDeviation = "none"
-  Ctrs <- MCCtrs
+  ShareDeviation = "delete_no_reshare"
+  Ctrs = {c1, c2}
   Reqs = {0, 500, 1500}
   ClassDeviation = "none"
   c1 = c1
   c2 = c2
   c3 = c3
-SYMMETRY Symm
+
 INVARIANTS Inv_BalloonsDisjoint Inv_BalloonsWithinAllowed Inv_FreeCpusAreUnowned Inv_OneBalloonPerCtr Inv_SharedIdleNotOwned Inv_SharedIdleCoversScope Inv_MinMaxCpus Inv_MinMaxInstances Inv_NonEmptyHasCpus Inv_ToldIsCpusPlusShared Inv_ToldNonEmpty Inv_CpuClass Inv_Quiescent
